@@ -14,3 +14,23 @@ import "net"
 func (server *Server) VerifC04HandleTcpConnect(conn net.Conn) {
 	server.handleTcpConnect(conn)
 }
+
+// VerifC04ReservedBytes reports what the chunk composer of this session holds:
+// the sum of the capacities of the per chunk stream message buffers, and the
+// number of chunk streams.
+func (s *ServerSession) VerifC04ReservedBytes() (reserved int, streams int) {
+	for _, stream := range s.chunkComposer.csid2stream {
+		reserved += stream.msg.buff.Cap()
+		streams++
+	}
+	return
+}
+
+// VerifC04PresetAck sets the acknowledgement bookkeeping of a session that has
+// not started yet (recvLastAck: connection byte count at the last
+// acknowledgement, seqNum: last sequence number sent), so that the sequence
+// number wrap at ackSeqMax can be reached without 4 GiB of input.
+func (s *ServerSession) VerifC04PresetAck(recvLastAck uint64, seqNum uint32) {
+	s.recvLastAck = recvLastAck
+	s.seqNum = seqNum
+}
